@@ -2,6 +2,7 @@ import Model.PeerBook
 import Proofs.Map
 import Gen.PeerConnectedEffects
 import Gen.PeerDisconnectedEffects
+import Gen.NetStepDial
 
 /-!
 GenTie.PeerBookRule — `NetworkManager.handle_peer_connected` / `handle_peer_disconnected`, translated from the current source as
@@ -82,5 +83,32 @@ theorem model_peer_disconnected_is_translated_effects (b : Book) (k : PeerKey) (
   unfold Book.peerDisconnected
   simp only [eff, Gen.peer_disconnected_effects]
   cases k.outgoing <;> cases p.helloReceived <;> simp [runDisconnectEffect]
+
+/-! ### the dial loop of `NetworkManager.step` -/
+
+/-- the translated test of the loop body dials exactly for an outgoing peer that is not one of the node's own addresses and
+whose back-off has passed -/
+theorem net_step_dial_iff (outgoing is_mine time_ok : Bool) :
+    Gen.net_step_dial outgoing is_mine time_ok =
+      if outgoing && !is_mine && time_ok then ["set_last_attempt", "start_outgoing"] else [] := by
+  cases outgoing <;> cases is_mine <;> cases time_ok <;> first | rfl | decide
+
+/-- one iteration of the model's loop over the snapshot is the translated body: nothing for a peer that is not dialled;
+otherwise the attempt time is recorded first and the connection started with the updated record -/
+theorem model_step_peer_as_translated (P : Params) (now : Int) (b : Book) (k : PeerKey) (x d : DiscPeer)
+    (rest : List (PeerKey × DiscPeer)) (hd : b.disconnected.get? k = some d) :
+    Book.stepPeers P now b ((k, x) :: rest) =
+      (if Gen.net_step_dial k.outgoing (b.myAddresses.contains (k.host, k.port))
+            (isTimeToConnect P d.banScore d.lastAttempt now) = ["set_last_attempt", "start_outgoing"] then
+        let d' : DiscPeer := { d with lastAttempt := some now }
+        Book.stepPeers P now
+          (({ b with disconnected := b.disconnected.set k d',
+                     attempts := (k, now, d.banScore) :: b.attempts } : Book).startOutgoing k d') rest
+      else Book.stepPeers P now b rest) := by
+  rw [net_step_dial_iff]
+  rw [Book.stepPeers]
+  simp only [hd]
+  cases h : (k.outgoing && !(b.myAddresses.contains (k.host, k.port)) && isTimeToConnect P d.banScore d.lastAttempt now) <;>
+    simp [h]
 
 end GenTie
